@@ -13,5 +13,33 @@ package pause
 //@   ensures result != nil && fresh(result) && result.PauseCh != nil && result.ResumeCh != nil
 
 //@ func Unsubscribe
+//@   property C14
 //@   opaque
+//@   sweep assert
 //@   modifies chan::*
+//@   local removed int = 0
+//@   after Delete(subscribers)#1: removed = 1
+//@   assert close(PauseCh)#1: [removed-first] @C14 removed == 1 // C14: Unsubscribe closes both channels (only after the subscriber was taken out of the set: no later Pause or Resume can pick it up and operate on a closed channel)
+//@   assert close(ResumeCh)#1: [removed-first] @C14 removed == 1
+
+// Pause: only the call that switches the state to paused signals the subscribers (a repeated or
+// unmatched Pause sends nothing), and the signal is a non-blocking send.
+//@ func Pause
+//@   property C14
+//@   opaque
+//@   sweep assert
+//@   local won int = 0
+//@   after CompareAndSwap(isPaused)#1: won = ite(opResult, 1, 0)
+//@   assert Range(subscribers)#1: [only-the-winner] @C14 won == 1 // C14: Pause: CAS false->true then non-blocking send on every PauseCh (repeated or unmatched calls from independent controllers send nothing)
+//@ func Pause$1
+//@   property C14
+//@   attr cancellable @C14 PauseCh:default
+
+// Resume: the state goes back to running only after every subscriber's handshake was waited for.
+//@ func Resume
+//@   property C14
+//@   opaque
+//@   sweep assert
+//@   local waited int = 0
+//@   after Wait(wg)#1: waited = 1
+//@   assert CompareAndSwap(isPaused)#1: [after-all-acks] @C14 waited == 1 // C14: Resume: receive once from every subscriber's ResumeCh, then CAS true->false
